@@ -1,5 +1,6 @@
 pub mod absmod;
 pub mod apistate;
+pub mod arena;
 pub mod cases;
 pub mod concretise;
 pub mod gen;
